@@ -110,6 +110,7 @@ func (fr *Frame) instr(ins ssa.Instruction, st *State, g *Term) *Term {
 	case *ssa.Store:
 		addr := fr.get(x.Addr)
 		ng := fr.nilCheck(addr, g, st, x.Pos(), "store through nil pointer")
+		fr.guardLoadStore(x.Addr, nil, true, st, g, x.Pos())
 		loc := c.derefLoc(addr, x.Addr.Type())
 		val := fr.get(x.Val)
 		if isBigIntValueType(loc.Elem) {
@@ -203,6 +204,7 @@ func (fr *Frame) instr(ins ssa.Instruction, st *State, g *Term) *Term {
 		fr.vals[x] = tv(r)
 		return nil
 	case *ssa.MapUpdate:
+		fr.guardUse(x.Map, true, st, g, x.Pos(), "map update")
 		m := fr.term(x.Map)
 		mt := x.Map.Type().Underlying().(*types.Map)
 		ng := fr.mayPanicIf(g, tEq(m, intLit(0)), st, "nilmap", x.Pos(), "assignment to entry in nil map")
@@ -219,6 +221,7 @@ func (fr *Frame) instr(ins ssa.Instruction, st *State, g *Term) *Term {
 		return ng
 	case *ssa.Lookup:
 		if mt, ok := x.X.Type().Underlying().(*types.Map); ok {
+			fr.guardUse(x.X, false, st, g, x.Pos(), "map lookup")
 			m := fr.term(x.X)
 			dn, vn, _ := c.mapNames(mt)
 			k := c.mapKey(mt, fr.term(x.Index))
@@ -251,8 +254,13 @@ func (fr *Frame) instr(ins ssa.Instruction, st *State, g *Term) *Term {
 		fr.vals[x] = Val{Clo: cl}
 		return nil
 	case *ssa.Range:
+		fr.guardUse(x.X, false, st, g, x.Pos(), "range")
+		if gi := fr.guardOf[x.X]; gi != nil {
+			fr.guardOf[x] = gi
+		}
 		return fr.rangeInit(x, st, g)
 	case *ssa.Next:
+		fr.guardUse(x.Iter, false, st, g, x.Pos(), "map iteration step")
 		return fr.rangeNext(x, st, g)
 	case *ssa.Go:
 		c.unsupported("go statement at %s", c.posOf(x.Pos()))
@@ -356,6 +364,7 @@ func (fr *Frame) unop(x *ssa.UnOp, st *State, g *Term) *Term {
 	case token.MUL: // load
 		addr := fr.get(x.X)
 		ng := fr.nilCheck(addr, g, st, x.Pos(), "nil pointer dereference")
+		fr.guardLoadStore(x.X, x, false, st, g, x.Pos())
 		loc := c.derefLoc(addr, x.X.Type())
 		if isBigIntValueType(loc.Elem) {
 			c.unsupported("load of big number by value at %s", c.posOf(x.Pos()))
@@ -803,7 +812,8 @@ func (fr *Frame) rangeInit(x *ssa.Range, st *State, g *Term) *Term {
 	}
 	// ghost: visited set of this iterator, kept in a heap name so that loops havoc it and invariants can mention it
 	ks := c.mapKeySort(mt)
-	name := c.heapName(fmt.Sprintf("iter!%s!%s", fr.id, x.Name()), ArrSort(ks, SBool))
+	// (the frame id of an inlined callee contains '>' and '#': not legal in an SMT symbol)
+	name := c.heapName("iter!"+strings.ReplaceAll(sanitize(fr.id), "#", "_h")+"!"+x.Name(), ArrSort(ks, SBool))
 	c.heapSet(st, name, mk(ArrSort(ks, SBool), fmt.Sprintf("((as const %s) false)", ArrSort(ks, SBool))))
 	fr.vals[x] = tv(fr.term(x.X))
 	if fr.iters == nil {
